@@ -86,7 +86,7 @@ theorem eq_complete (pk : PubKey G) (sig : Signature G) (un rev : List String)
       omega
     have hmhat := maps_map_self (fun k => c * val k + mtOf tp.mTilde common k) un
     have hrevm := maps_map_self val rev
-    simp only [verifyEquality, hnot, if_false,
+    simp only [verifyEquality, verifyEqualityCore, hnot, if_false,
       calcTeq_value enc pk _ _ _ _ _ un rf _ hrun hmhat, Outcome.bind_ok, addOps_pow,
       keys_map_self, mulPows_sum enc pk.r _ rf val rev _ (hr.mono hrev) hrevm, addOps_inv,
       addOps_mul]
